@@ -271,11 +271,17 @@ func c04EndToEnd(c CaseC04) *hx.Failure {
 		}
 	}
 	// WithPES helper writes the PTS into a packet; the PES decoder must read it back
-	q := packet.Create(0x31)
-	packet.WithPES(q, c.PTS)
-	if pb, err := packet.PESHeader(q); err == nil {
-		if ph, err := pes.NewPESHeader(pb); err != nil || ph.PTS() != c.PTS {
-			return hx.Failf("e2e-withpes", "PTS written by WithPES reads back as %v (err %v), want %d", ph, err, c.PTS)
+	// (at a unit start, on packets created with every combination of the flag options in front of it)
+	for i, opts := range [][]func(*packet.Packet){{packet.WithPUSI}, {packet.WithPUSI, packet.WithHasAdaptationFieldFlag}, {packet.WithHasPayloadFlag, packet.WithPUSI},
+		{packet.WithHasAdaptationFieldFlag, packet.WithPUSI, packet.WithHasPayloadFlag}, {packet.WithHasAdaptationFieldFlag, packet.WithContinuousAF, packet.WithPUSI}} {
+		q := packet.Create(0x31, opts...)
+		packet.WithPES(q, c.PTS)
+		pb, err := packet.PESHeader(q)
+		if err != nil {
+			return hx.Failf("e2e-withpes", "option set %d: the packet WithPES produced at a unit start yields no PES header: %v (packet starts %x)", i, err, q[:24])
+		}
+		if ph, err := pes.NewPESHeader(pb); err != nil || !ph.HasPTS() || ph.PTS() != c.PTS {
+			return hx.Failf("e2e-withpes", "option set %d: PTS written by WithPES reads back as %v (err %v), want %d", i, ph, err, c.PTS)
 		}
 	}
 	return nil
